@@ -90,6 +90,17 @@ CHECKS = {
         "runtime oracle: independent parser of the generated text + audit hook",
         "4/C19",
     ),
+    "C01": (
+        "exploration",
+        "Generated wavefunction objects over the stated classes (shell order, conventions incl. every format table and random signed "
+        "permutations, segmented / SP / generalized, Cartesian / pure up to the target's table, restricted / ROHF / unrestricted / "
+        "occs_aminusb / fractional, ghost / ECP centres, with / without virtuals) and every wavefunction file of the corpus are written "
+        "to all 5 targets x allow_changes through dump_one (a sample through `python -m iodata`); every file written without error is "
+        "read back and each orbital compared as a FUNCTION OF SPACE with the independent evaluator R.gto at probe points under a "
+        "first-order envelope of the printed precision, plus nuclei, occupations, energies, spin and stored density matrices.",
+        "runtime oracle: real dump/load round trip vs independent Gaussian-basis evaluator",
+        "4/C01",
+    ),
 }
 
 NOT_YET = "check not built yet (work in progress; see DESIGN.md section 5b)"
